@@ -89,6 +89,22 @@ std::vector<std::string> RunCase(const json& c) {
   auto addMesh = [&](const char* tag, const Manifold& m) {
     MeshGL64 g = m.GetMeshGL64();
     h.push_back(std::string(tag) + ":" + Hex(HashMeshModIDs(g)) + ":" + std::to_string(g.NumTri()) + ":" + ErrName(m.Status()));
+    if (const char* d = getenv("VERIF_DUMP")) {   // diagnosis of a mismatch: the full export, one file per mesh
+      FILE* f = fopen((std::string(d) + "." + tag).c_str(), "w");
+      fprintf(f, "numProp %d tol %.17g\n", (int)g.numProp, (double)g.tolerance);
+      for (size_t i = 0; i < g.vertProperties.size(); i++) fprintf(f, "%.17g%c", g.vertProperties[i], (i + 1) % g.numProp ? ' ' : '\n');
+      fprintf(f, "tris\n");
+      for (size_t i = 0; i < g.triVerts.size(); i += 3) fprintf(f, "%lu %lu %lu\n", (unsigned long)g.triVerts[i], (unsigned long)g.triVerts[i + 1], (unsigned long)g.triVerts[i + 2]);
+      fprintf(f, "merge\n");
+      for (size_t i = 0; i < g.mergeFromVert.size(); i++) fprintf(f, "%lu %lu\n", (unsigned long)g.mergeFromVert[i], (unsigned long)g.mergeToVert[i]);
+      fprintf(f, "runs\n");
+      for (size_t i = 0; i < g.runIndex.size(); i++) fprintf(f, "%lu\n", (unsigned long)g.runIndex[i]);
+      fprintf(f, "faceID\n");
+      for (auto x : g.faceID) fprintf(f, "%lu\n", (unsigned long)x);
+      fprintf(f, "xf\n");
+      for (auto x : g.runTransform) fprintf(f, "%.17g\n", (double)x);
+      fclose(f);
+    }
   };
   const std::string k = c["k"];
   if (k == "expr") {
@@ -142,6 +158,18 @@ std::vector<std::string> RunCase(const json& c) {
         gFails.push_back({{"kind", "roundtrip"}, {"step", 0}, {"detail", {{"why", "big mesh changed in the round trip"}, {"nt", (long)g.NumTri()}, {"nt2", (long)g2.NumTri()}}}});
     }
     h.push_back("roundtripbig:" + std::to_string(g.NumVert()) + ":" + std::to_string(g.mergeFromVert.size()));
+  } else if (k == "touch") {
+    // refined boxes that touch along edges and at corners: the results have 4-fold edges and pinched
+    // vertices that DedupeEdges / SplitPinchedVerts split, above 1e4 halfedges (their parallel paths)
+    const int n = c["refine"];
+    auto B = [&](vec3 lo, vec3 size) { return Manifold::Cube(size).Refine(n).Translate(lo); };
+    Manifold a = B({0, 0, 0}, {1, 1, 1}), b = B({1, 1, 0}, {1, 1, 1}), cc = B({1, 1, 1}, {1, 1, 1}), d = B({0, 1, 1}, {1, 1, 1});
+    addMesh("edge", a + b);
+    addMesh("corner", a + cc);
+    addMesh("ring", (a + b) + (cc + d));
+    addMesh("cut", ((a + b) + d) - B({0.5, 0.5, -0.5}, {1, 1, 3}));
+    Manifold s = B({0, -1, -1}, {1, 2, 1});                         // the shape of finding F25
+    addMesh("shared", (s + B({-1, 0, 0}, {2, 1, 1})) - s.Translate({1, 0, 0}));
   } else if (k == "sphere") {
     const int seg = c["seg"];
     Manifold a = Manifold::Sphere(1.0, seg), b = Manifold::Sphere(1.0, seg).Translate({0.6, 0.2, 0.1});
